@@ -95,6 +95,8 @@ func allPathsGuard1(pv *Prov, b *ssa.BasicBlock, pred func(Atom) bool, depth int
 }
 
 func runC04(p *Program, r *Report) {
+	engineConsistency(p, r, "C04.E", func(n string) bool { return strings.Contains(n, "dataAttributeNamePattern") })
+
 	r.Trusted = []string{"go/types + go/ssa", "/verif/policy/reviewed_policy.json (reviewed once against the statement and the package documentation)", "text/template runs the inserted sanitizer chain in order and aborts on the first error"}
 	r.NotDecided = []string{"accept/reject of concrete templates is not executed: it follows from the tables, the lookup shape and the chain shapes decided here"}
 	r.Explain = "All five policy tables, the enum word sets and the context table are evaluated from the source literals (exhaustive over the finite table universe) and compared with the reviewed policy under a never-weaker order; the data-* pattern's language is included in data-[a-z_][-a-z0-9_]*; the attribute and element-content lookups are shown to be default-deny by the provenance and guards of every nil-error return; enum contexts are exactly those whose sanitizer is a set-membership test, and partial substitutions into them are refused on every path; URL-class chains always run the context sanitizer and the normaliser; names chosen by conditional branches must agree on the context; tag/attribute-name and unquoted positions are rejected."
